@@ -367,11 +367,16 @@ func (w *c02World) step(tag string) c02StepResult {
 	}
 	enough := w.c08EnoughIdle(prev, pods)
 	lost := w.c08KnowledgeLost(prev, pods)
+	lostEligible := w.writeLost && w.failedWrites == 0 // judged on the passes before this one
 	emptyMode := false
 	for _, e := range prev.Status.NetworkInterfaces {
 		if e.NetworkInterfaceTrafficMode == "" {
 			emptyMode = true
 		}
+	}
+	sc0 := false
+	if v, ok := w.rec.cache.Load(c02NodeName); ok {
+		sc0 = v.(*NodeStatus).StatusChanged.Load()
 	}
 	_, err := w.rec.Reconcile(w.ctx, reconcile.Request{NamespacedName: client.ObjectKey{Name: c02NodeName}})
 	w.resetGuard()
@@ -392,6 +397,18 @@ func (w *c02World) step(tag string) c02StepResult {
 	}
 	for id := range cur.Status.NetworkInterfaces {
 		w.everRecorded[id] = true
+	}
+	for i := range res.calls {
+		// EFLO: a second half-created address arrives while the record already holds one
+		// under the empty key
+		c := &res.calls[i]
+		if c.Kind == cloudctl.KAssign4 && c.EFLO && c.Err != "" && len(c.ToldIPs) > 0 {
+			if e := prev.Status.NetworkInterfaces[c.ENI]; e != nil {
+				if _, ok := e.IPv4[""]; ok {
+					w.efloCollision = true
+				}
+			}
+		}
 	}
 	for i := range res.calls {
 		c := &res.calls[i]
@@ -426,11 +443,18 @@ func (w *c02World) step(tag string) c02StepResult {
 		// the cloud (StatusChanged). What a pass merely learned (full sync answer, names of
 		// half-created addresses) is lost silently: that is finding C08-lost-write-no-resync.
 		// A failed pass that did change the cloud must be followed by a resync.
-		w.failedWrites = 0 // 1: the latest failed pass had changed the cloud
+		// 1: the controller certainly had StatusChanged set when the write failed (it was
+		// set before the pass, or an assign / unassign succeeded in it), so it must resync
+		w.failedWrites = 0
+		if sc0 {
+			w.failedWrites = 1
+		}
 		for i := range res.calls {
-			if res.calls[i].Mutating() && res.calls[i].Err == "" {
-				w.failedWrites = 1
-				break
+			switch res.calls[i].Kind {
+			case cloudctl.KAssign4, cloudctl.KAssign6, cloudctl.KUnAssign4, cloudctl.KUnAssign6:
+				if res.calls[i].Err == "" {
+					w.failedWrites = 1
+				}
 			}
 		}
 	} else if w.writes > 0 {
@@ -471,7 +495,7 @@ func (w *c02World) step(tag string) c02StepResult {
 				w.c.Label("known:C08-lost-write-no-resync")
 			case len(w.nilMapHit) > 0 && c08Known("C08-sync-merge-nil-map"):
 				w.c.Label("known:C08-sync-merge-nil-map")
-			case strings.Contains(msg, "name:") && c08AnyEmptyKey(cur) && c08Known("C08-eflo-partial-key-collision"):
+			case strings.Contains(msg, "name:") && (c08AnyEmptyKey(cur) || w.efloCollision) && c08Known("C08-eflo-partial-key-collision"):
 				w.c.Label("known:C08-eflo-partial-key-collision")
 			case w.s.Mode == "C08":
 				w.fail("C08 rollback: after reconcile [%s] %s\nrecord: %s", tag, msg, c02RenderRecord(cur.Status.NetworkInterfaces))
@@ -505,7 +529,7 @@ func (w *c02World) step(tag string) c02StepResult {
 		case m.kind == "perkind" && emptyMode && c08Known("C08-rollback-record-lacks-mode"):
 			w.c.Label("known:C08-rollback-record-lacks-mode")
 			w.trace("    (known C08-rollback-record-lacks-mode: %s)", m.msg)
-		case lost != "" && w.writeLost && w.failedWrites == 0 && c08Known("C08-lost-write-no-resync"):
+		case lost != "" && lostEligible && c08Known("C08-lost-write-no-resync"):
 			// the controller was told about resources a failed record write then lost, and
 			// it did not resynchronise before asking for more
 			w.c.Label("known:C08-lost-write-no-resync")
@@ -1595,7 +1619,9 @@ func (w *c02World) c08OrphanClass(ids []string) string {
 		return ""
 	}
 	for _, id := range ids {
-		if !(w.deleteFailed[id] && w.everRecorded[id]) && !(c08Known("C08-double-fault-orphan") && w.c08DoubleFaultOrphan([]string{id})) {
+		// recorded once, dropped from the record later, still exists detached: only the full
+		// sync removes a record entry without deleting the interface
+		if !w.everRecorded[id] && !(c08Known("C08-double-fault-orphan") && w.c08DoubleFaultOrphan([]string{id})) {
 			return ""
 		}
 	}
